@@ -15,6 +15,8 @@ def observe(spec, inputs):
     m1 = plspec.build(n, spec["model"], env)
     F = {k: o for k, (p, o) in inputs["assume"].items() if p}
     try:
+        if spec.get("warm"):
+            C.warm(m1)
         base = m1.assume(dict(F)) if spec["assumed"] else m1
         red = base.reduce() if hasattr(base, "reduce") else base
         v = red.evaluate(dict(inputs["x"]))
